@@ -11,6 +11,9 @@ C09 - rendering keeps the text.  Claimed for ONE clause only: docstring fields a
   R09.9 a function that replaces a field list uses or keeps every field of it
   R09.10 the parser entries do not rewrite the raw docstring text before parsing
   R09.11 the doctest colorizer re-emits every named group of a token regex it takes apart
+  R09.12 the piece taken after a delimiter is the whole remainder (split(d, k)[k], never split(d)[k])
+  R09.13 a width cut from the front of every line of a block is computed over all of its lines
+  R09.14 a consolidated-field handler turns every child of a list item into field content (whole copy, or indexes covered by a validated length)
 Does not decide: word-for-word preservation, ordering, literal/doctest blocks, napoleon conversion (equalities over runtime strings).
 """
 from __future__ import annotations
@@ -21,7 +24,7 @@ from typing import Dict, List, Optional, Set, Tuple
 from ..core import AnalysisError, Func, Repo, dotted, norm, parents
 from ..cfg import CFG
 from ..report import Check
-from ..util import call_name, calls_in, const_str
+from ..util import call_name, calls_in, const_str, values_of, loop_exits
 
 FH = 'pydoctor.epydoc2stan.FieldHandler'
 EPY = 'pydoctor.epydoc.markup.epytext'
@@ -387,6 +390,137 @@ def run(repo: Repo, chk: Check, thorough: bool = False) -> None:
     if n_rx11 < 1:
         raise AnalysisError('R09.11: no token regex with named groups is taken apart in pydoctor.epydoc.doctest any more (DEFINE_FUNC_RE confirmed)')
     chk.require('R09.11', 1)
+
+    # ------------------------------------------------------------------ R09.12
+    # in the modules that turn docstring text into docstring text (napoleon conversion, markup parsers) `line.split(d)[k]` with a constant k >= 1
+    # and no matching maxsplit is the piece BETWEEN two delimiters: everything after the next delimiter on the line is dropped silently.  The
+    # piece after a delimiter has to be the whole remainder: split(d, k)[k] (or partition(d)[2], or an unpacking, which cannot lose text silently)
+    TEXT_MODULES = ('pydoctor.napoleon.', 'pydoctor.epydoc.markup.', 'pydoctor.epydoc.doctest', 'pydoctor.epydoc2stan', 'pydoctor.node2stan')
+    n_sp = 0
+    for f in sorted(repo.funcs.values(), key=lambda g: g.qn):
+        if not any(f.mod.name == m.rstrip('.') or f.mod.name.startswith(m) for m in TEXT_MODULES) or f.mod.name.endswith('sre_parse36'):
+            continue
+        for n in f.walk():
+            if not (isinstance(n, ast.Subscript) and isinstance(n.value, ast.Call) and call_name(n.value) in ('split', 'rsplit') and
+                    isinstance(n.value.func, ast.Attribute) and isinstance(n.slice, ast.Constant) and isinstance(n.slice.value, int)):
+                continue
+            k = n.slice.value
+            sp = n.value
+            if call_name(sp) == 'split' and k < 1:
+                continue        # the piece before the first delimiter
+            if call_name(sp) == 'rsplit':
+                continue        # rsplit(d, n)[-1] / [0]: pieces counted from the end - not the idiom decided here
+            if not sp.args:
+                continue        # whitespace split: words, not a remainder
+            n_sp += 1
+            ms = sp.args[1] if len(sp.args) > 1 else next((kw.value for kw in sp.keywords if kw.arg == 'maxsplit'), None)
+            ok12 = isinstance(ms, ast.Constant) and ms.value == k
+            chk.ob('R09.12', f'{f.qn} :: the piece after `{norm(sp.args[0])}` is the whole remainder', ok12,
+                   f'`{norm(n)}`' if ok12 else
+                   f'`{norm(n)}` keeps only the text between two delimiters: for `name : use it in two cases: batch and replay` everything after the second '
+                   'delimiter is dropped from the rendered text without a warning', repo.loc(f.mod, n))
+    if n_sp < 1:
+        raise AnalysisError('R09.12: no split(d, k)[k] remainder found in the text modules (1 confirmed: NumpyDocstring._parse_numpydoc_see_also_section)')
+    chk.require('R09.12', 1)
+
+    # ------------------------------------------------------------------ R09.13
+    # `[line[n:] for line in L]` removes n characters from every line of a block.  Nothing but indentation is removed only when n does not exceed the
+    # indentation of ANY line: n has to be computed from all the lines of L (a loop over L without an exit of its own, or min()), not from its first
+    # line - with a deeper indented first line the later lines lose their first characters ("Defaults to fast." -> "ults to fast.")
+    n_cut = 0
+    for f in sorted(repo.funcs.values(), key=lambda g: g.qn):
+        if not any(f.mod.name == m.rstrip('.') or f.mod.name.startswith(m) for m in TEXT_MODULES) or f.mod.name.endswith('sre_parse36'):
+            continue
+        for lc in f.walk():
+            if not (isinstance(lc, ast.ListComp) and len(lc.generators) == 1 and isinstance(lc.generators[0].target, ast.Name) and
+                    isinstance(lc.generators[0].iter, ast.Name) and isinstance(lc.elt, ast.Subscript) and isinstance(lc.elt.value, ast.Name) and
+                    lc.elt.value.id == lc.generators[0].target.id and isinstance(lc.elt.slice, ast.Slice) and isinstance(lc.elt.slice.lower, ast.Name) and
+                    lc.elt.slice.upper is None):
+                continue
+            block, width = lc.generators[0].iter.id, lc.elt.slice.lower.id
+            vals = values_of(f, width)
+            if not vals:
+                continue        # a parameter: the caller's business, not decided
+            n_cut += 1
+            bad13 = None
+            for v in vals:
+                if isinstance(v, ast.Call) and call_name(v) == 'min':
+                    continue
+                cal = []
+                if isinstance(v, ast.Call) and any(isinstance(a, ast.Name) and a.id == block for a in v.args):
+                    cal, _how = repo.callees(v, f)
+                if not cal:
+                    bad13 = f'`{norm(v)[:60]}` is not computed from `{block}` by a pydoctor function'
+                    break
+                for g in cal:
+                    idx = next(i for i, a in enumerate(v.args) if isinstance(a, ast.Name) and a.id == block)
+                    ps = [a.arg for a in g.params()]
+                    off = 1 if ps and ps[0] in ('self', 'cls') and isinstance(v.func, ast.Attribute) else 0
+                    pn = ps[idx + off] if idx + off < len(ps) else None
+                    whole = [lp for lp in g.walk() if isinstance(lp, ast.For) and isinstance(lp.iter, ast.Name) and lp.iter.id == pn and not loop_exits(lp)]
+                    uses_min = any(isinstance(c, ast.Call) and call_name(c) == 'min' for c in g.walk())
+                    if not whole and not uses_min:
+                        bad13 = f'`{norm(v)[:60]}`: {g.qn} leaves its loop over the lines at the first one it likes'
+            chk.ob('R09.13', f'{f.qn} :: the width cut from every line is computed over all the lines', bad13 is None,
+                   f'`{norm(lc)}` with {", ".join(norm(v)[:50] for v in vals)}' if bad13 is None else
+                   bad13 + ': a block whose first line is indented deeper than a later one loses the first characters of the later lines, silently',
+                   repo.loc(f.mod, lc))
+    if n_cut < 1:
+        raise AnalysisError('R09.13: no `[line[n:] for line in lines]` dedent found in the text modules (1 confirmed: GoogleDocstring._dedent)')
+    chk.require('R09.13', 1)
+
+    # ------------------------------------------------------------------ R09.14
+    # the consolidated-field handlers (`:Parameters:` written as a bullet or definition list) replace the whole field by generated ones (visit_field
+    # prunes the original): for every list item, each child must end up in a generated field.  Either the item is taken whole (`item[:]`,
+    # `item.children`, `list(item)`, `item.copy()`), or the children are picked by constant index and the validation loop of the same handler rejects
+    # items with more children than indexes used (`len(item) > k` raises)
+    n14 = 0
+    for f in sorted(repo.funcs.values(), key=lambda g: g.qn):
+        if not (f.cls is not None and f.name.startswith('handle_consolidated_') and f.name.endswith('_list')):
+            continue
+        itemsp = f.params()[1].arg if len(f.params()) > 1 else None
+        loops = [n for n in f.walk() if isinstance(n, ast.For) and isinstance(n.iter, ast.Name) and n.iter.id == itemsp and isinstance(n.target, ast.Name)]
+        emit = [lp for lp in loops if any(isinstance(c, ast.Call) and call_name(c) == '_add_field' for st in lp.body for c in ast.walk(st))]
+        if not emit:
+            continue
+        n14 += 1
+        bad14 = None
+        for lp in emit:
+            it = lp.target.id
+            whole = any((isinstance(x, ast.Subscript) and isinstance(x.value, ast.Name) and x.value.id == it and isinstance(x.slice, ast.Slice) and
+                         x.slice.lower is None and x.slice.upper is None) or
+                        (isinstance(x, ast.Attribute) and x.attr == 'children' and isinstance(x.value, ast.Name) and x.value.id == it) or
+                        (isinstance(x, ast.Call) and call_name(x) in ('list', 'tuple') and x.args and isinstance(x.args[0], ast.Name) and x.args[0].id == it) or
+                        (isinstance(x, ast.Call) and call_name(x) in ('copy', 'deepcopy') and isinstance(x.func, ast.Attribute) and
+                         isinstance(x.func.value, ast.Name) and x.func.value.id == it)
+                        for st in lp.body for x in ast.walk(st))
+            if whole:
+                continue
+            used = {norm(x.slice) for st in lp.body for x in ast.walk(st) if isinstance(x, ast.Subscript) and isinstance(x.value, ast.Name) and x.value.id == it and
+                    isinstance(x.slice, (ast.Constant, ast.UnaryOp))}
+            bound = None
+            for vl in loops:
+                if vl is lp:
+                    continue
+                for n in ast.walk(vl):
+                    if isinstance(n, ast.If) and any(isinstance(r_, ast.Raise) for st in n.body for r_ in ast.walk(st)):
+                        for cmp_ in ast.walk(n.test):
+                            if isinstance(cmp_, ast.Compare) and len(cmp_.ops) == 1 and isinstance(cmp_.ops[0], (ast.Gt, ast.GtE, ast.NotEq)) and \
+                                    isinstance(cmp_.left, ast.Call) and call_name(cmp_.left) == 'len' and cmp_.left.args and \
+                                    isinstance(cmp_.left.args[0], ast.Name) and cmp_.left.args[0].id == vl.target.id and \
+                                    isinstance(cmp_.comparators[0], ast.Constant) and isinstance(cmp_.comparators[0].value, int):
+                                k = cmp_.comparators[0].value - (1 if isinstance(cmp_.ops[0], ast.GtE) else 0)
+                                bound = k if bound is None else min(bound, k)
+            if bound is None or len(used) < bound:
+                bad14 = (f'the children of `{it}` are picked by index ({sorted(used)}) and nothing rejects an item with more children'
+                         if bound is None else f'{len(used)} child index(es) used ({sorted(used)}) but items of up to {bound} children are accepted')
+        chk.ob('R09.14', f'{f.qn} :: every child of a list item becomes field content', bad14 is None,
+               'the item is taken whole, or every index of a validated length is used' if bad14 is None else
+               bad14 + ': the second paragraph, nested list or literal block of an item of a consolidated field is shown nowhere, and since the original field '
+               'is pruned no warning is emitted', f.loc)
+    if n14 < 2:
+        raise AnalysisError(f'R09.14: {n14} consolidated-field handlers found (2 confirmed: bullet list, definition list)')
+    chk.require('R09.14', 2)
 
     # ------------------------------------------------------------------ R09.7
     # a reST directive that declares a body (has_content = True) consumes it whatever its arguments are: every normal path through
